@@ -44,54 +44,75 @@ THEOREMS = [
 ]
 TABLE_OBLIGATIONS = ["Ural.Props.C08.special_hosts_probes", "Ural.Props.C08.protocol_pattern_unchanged"]
 RULE = (
-    "Four kinds of cases. 'h': a group of hostnames against the bundled rule list (one group per "
-    "bundled rule: the rule as a host with its wildcard instantiated by a fresh label and by every "
-    "label that also starts a longer rule, with 1-2 extra labels, its exception label, every proper "
-    "suffix, sibling labels), each host given bare, upper-cased, with a trailing dot, as http://h/p, "
-    "as h:80/p and as HTTPS://user:pw@h:8080/p?q=1#f; plus the corpus of fixed defects, special hosts / look-alikes and seeded random "
-    "label sequences over the labels of the bundled list. For every form split_suffix, "
-    "get_domain_name, has_valid_suffix, extract_suffix, has_valid_tld and is_valid_tld (of the last "
-    "label, upper-cased, punycoded and decoded) are compared with the Lean model (trie built by the "
-    "model's add from the same rule list, regenerated each run) and with the oracle (publicsuffix "
-    "algorithm run directly over the rule list). 'syn': a rule set over labels {a,b,c,*} with "
-    "optional leading '!' pushed through the real SuffixTrie.add, all hostnames of depth <= 4 over "
-    "{a,b,c}: split/extract_domain_name/has_valid_domain_name/extract_suffix vs model, vs the Lean "
-    "rule-list specification pslLen run by the driver, and vs the oracle. 'odd': malformed rule lines "
-    "('!' not leftmost, duplicates, empty labels) model-vs-implementation only. 'sp': strings through "
-    "is_special_host vs the hand model. Non-trivial = at least one host of the case has a public "
-    "suffix of >= 2 labels, or is matched by a wildcard or an exception rule, or is a bare suffix; "
-    "distinct = distinct (rule set, host group)."
+    "Kinds of cases. 'h': a group of hostnames against the bundled rule list (one group per bundled rule: the rule "
+    "as a host with its wildcard instantiated by a fresh label and by every label that also starts a longer rule, "
+    "with 1-2 extra labels, its exception label, every proper suffix, sibling labels), each host given bare, "
+    "upper-cased, with a trailing dot, as http://h/p, as h:80/p, as HTTPS://user:pw@h:8080/p?q=1#f and in one of 20 "
+    "further URL spellings by rotation (//h/p, h?q, h#f, ftp://h, HtTp://h:/, u@h, http://a:b@c:d@h:99999/x, tab "
+    "inside, non-digit port ...), plus one of 32 'model-only' spellings per group (leading white space, newline in "
+    "the scheme, svn+ssh://, letters://, 64/65-letter schemes, brackets, empty authority ...); the corpus of fixed "
+    "defects and the first three hosts of every exception / wildcard rule group get all 58 spellings. The URL STRING "
+    "goes to the Lean model, which parses it itself (safe_urlsplit + PROTOCOL_RE + urlsplit + .hostname of "
+    "Model/TldUrl.lean) and answers [hostname, split_suffix, get_domain_name, has_valid_suffix, extract_suffix, "
+    "has_valid_tld] or ValueError; compared with the real functions on the same string. Strings outside the stated "
+    "domain of the parser model (non-ASCII case mapping, NFKC check, IPv4 tail in an IPv6 literal; decided from the "
+    "real parser's answer) and, for the corpus, every string, also go through the hostname-level op (real parser "
+    "ships the hostname). is_valid_tld on the last label, upper-cased, dotted, punycoded and decoded. The oracle "
+    "(publicsuffix algorithm run directly over the rule list) applies to the spellings whose hostname is h by the "
+    "URL standard. 'u': host-less URLs, IP literals, localhost, unbalanced brackets, trailing dots, empty labels "
+    "(model vs implementation). 'trie': the trie ural/tld.py built at import time, read through name mangling, "
+    "against the model's trie node by node (leaf flag, exception set, children; root + one case per 40 top-level "
+    "labels); 'tlds': TLD_SET against the model's list. 'syn': a rule set over labels {a,b,c,*} with optional "
+    "leading '!' pushed through the real SuffixTrie.add, all hostnames of depth <= 4 over {a,b,c}: "
+    "split/extract_domain_name/has_valid_domain_name/extract_suffix vs model, vs the Lean rule-list specification "
+    "pslLen run by the driver, and vs the oracle. 'odd': malformed rule lines ('!' not leftmost, duplicates, empty "
+    "labels) model-vs-implementation only. 'sp': strings through is_special_host vs the hand model. Non-trivial = "
+    "at least one host of the case has a public suffix of >= 2 labels, or is matched by a wildcard or an exception "
+    "rule, or is a bare suffix; distinct = distinct (rule set, host group)."
 )
 EXHAUSTIVE = {
-    "quick": "every one of the bundled rules as a host group (see rule); over the 168 rules of depth <= 3 on labels "
-    "{a,b,c,*} with optional leading '!': all singletons, all doubled rules, all 2-subsets up to renaming of a,b,c in "
-    "both insertion orders; all 3-subsets (up to renaming) of the 40 such rules of depth <= 2; each x all 120 "
-    "hostnames of depth <= 4 over {a,b,c} (the hosts cover every renaming)",
-    "thorough": "every bundled rule as a host group; over the 168 rules of depth <= 3 on {a,b,c,*} with optional '!': "
+    "quick": "every one of the bundled rules as a host group (see rule); every exception rule (8) and every wildcard rule "
+    "(164) of the bundled list with the wildcard instantiated by a fresh label and by EVERY sibling label, the excepted "
+    "label and a fresh sibling of it, each with one and two labels above and every proper suffix (one label below "
+    "included), in all 58 URL spellings for the first three hosts; the whole import-time trie node by node against the "
+    "model's; over the 168 rules of depth <= 3 on labels {a,b,c,*} with optional leading '!': all singletons, all "
+    "doubled rules, all 2-subsets up to renaming of a,b,c in both insertion orders; all 3-subsets (up to renaming) of "
+    "the 40 such rules of depth <= 2; each x all 120 hostnames of depth <= 4 over {a,b,c} (the hosts cover every renaming)",
+    "thorough": "as quick for the bundled list and the trie; over the 168 rules of depth <= 3 on {a,b,c,*} with optional '!': "
     "all singletons, all ordered pairs, all 3-subsets up to renaming of a,b,c; all 4-subsets (up to renaming) of the "
     "40 rules of depth <= 2; each x all 120 hostnames of depth <= 4 over {a,b,c}",
 }
 TRUSTED = [
     "Lean 4 kernel; axioms of every listed theorem audited to be within {propext, Classical.choice, Quot.sound}",
-    "hand-written Lean model (Model/SuffixTrie.lean, Model/Tld.lean, Model/SpecialHost.lean) of "
-    "ural/classes/suffix_trie.py, ural/tld.py, ural/has_special_host.py, tied to the code by differential "
-    "execution (this run) on the bundled rule list and on exhaustive small rule sets",
-    "URL -> hostname (ural.utils.safe_urlsplit + urllib.parse.urlsplit(...).hostname) is not modelled: the model "
-    "starts from parsed.hostname, which the harness obtains from the real safe_urlsplit; the URL forms are "
-    "covered by the oracle only",
+    "hand-written Lean model (Model/SuffixTrie.lean, Model/Tld.lean, Model/TldUrl.lean, Model/SpecialHost.lean) of "
+    "ural/classes/suffix_trie.py, ural/tld.py, ural/has_special_host.py, ural.utils.safe_urlsplit, tied to the code by "
+    "differential execution (this run) on the bundled rule list and on exhaustive small rule sets",
+    "URL -> hostname: the Lean model of CPython 3.12's urllib.parse.urlsplit / SplitResult.hostname (Py/UrlSplit.lean, "
+    "Py/UrlAccessors.lean) is compared with the real parser on every URL string of this run (the hostname the model "
+    "extracts is part of every compared row), not proved equal to it; PROTOCOL_RE is a hand-written matcher whose "
+    "pattern string is regenerated and compared (table obligation protocol_pattern_unchanged). Outside the parser "
+    "model: a non-ASCII character in the host that str.lower changes, the NFKC check of urlsplit, an IPv4 tail inside an "
+    "IPv6 literal — such strings fall back to the hostname the real parser extracts",
+    "the trie the model works on is built by the model's add from the regenerated list AND compared node by node with the "
+    "private state of the trie ural/tld.py built at import time (SuffixTrie.__root through name mangling); TLD_SET likewise",
     "attempt_to_decode_idna (CPython idna codec) is a parameter of the model; the driver uses the table "
     "label -> decoded computed by the real codec in this run; PunyLaws is checked on every table entry",
-    "str.lower is modelled on ASCII only (non-ASCII labels of the bundled list are lower-case already; "
-    "urlsplit(...).hostname lower-cases before ural does)",
+    "str.lower is modelled on ASCII only (non-ASCII labels of the bundled list are lower-case already)",
 ]
 ASSUMPTIONS = [
     "hostnames are sequences of non-empty labels; special hosts (localhost, IPv4, IPv6) are outside the quantifier",
     "PunyLaws (idempotence of decoding on lower-cased labels, a dot-free label decodes to a dot-free label) for "
     "the two punycode theorems",
+    "URL-level invariance theorems: the side conditions of HostChars / NetlocChars / RestOk / Lead.Ok (host text without "
+    "@ : [ ] %, authority without / ? # tab CR LF, scheme of 1-64 ASCII letters, scheme-less spelling not of the form "
+    "letters://...) — explicit hypotheses; url_functions_via_host / url_psl_spec / url_negative_cases have none",
 ]
 UNPROVED = (
-    "URL parsing (hostname given inside a URL) is explored by the oracle, not proved: the model starts at "
-    "parsed.hostname. Unicode case mapping beyond ASCII is explored by the oracle only."
+    "Nothing of the statement is left to the oracle alone on the model side: the hostname-inside-a-URL clause is now "
+    "proved for the string-level functions (url_* theorems) on top of the Lean model of CPython's urlsplit/.hostname. "
+    "Not proved: that this parser model equals CPython's (compared on every run); Unicode case mapping beyond ASCII "
+    "(explored by the oracle and by the hostname-level tie only); bracketed hosts are covered by url_host_bracketed "
+    "but the IPv6 syntax check is the approximation bracketedHostOk."
 )
 
 FNS = ("split", "domain", "valid", "suffix")
